@@ -61,7 +61,8 @@ class FakeSnowflakeConnection:
             ).fetchone()
         ):
             db_file = f"{self.db_path/self.database}.db" if self.db_path else ":memory:"
-            duck_conn.execute(f"ATTACH DATABASE '{db_file}' AS {self.database}")
+            # if not exists, in case another connection has created it since we checked
+            duck_conn.execute(f"ATTACH IF NOT EXISTS DATABASE '{db_file}' AS {self.database}")
             duck_conn.execute(info_schema.creation_sql(self.database))
             duck_conn.execute(macros.creation_sql(self.database))
 
@@ -79,7 +80,8 @@ class FakeSnowflakeConnection:
                 where upper(catalog_name) = '{self.database}' and upper(schema_name) = '{self.schema}'"""
             ).fetchone()
         ):
-            duck_conn.execute(f"CREATE SCHEMA {self.database}.{self.schema}")
+            # if not exists, in case another connection has created it since we checked
+            duck_conn.execute(f"CREATE SCHEMA IF NOT EXISTS {self.database}.{self.schema}")
 
         # set database and schema if both exist
         if (
